@@ -19,7 +19,7 @@ ASSUMPTIONS = [
     "dropping the last reference finalises a generator immediately (CPython reference counting)",
     "iterators range over two pre-built queries with 3 results each; GEN_NEW uses the lowest free slot (symmetry)",
 ]
-BOUNDS = {"quick": dict(history_length=5, iterators=2), "thorough": dict(history_length=7, iterators=2)}
+BOUNDS = {"quick": dict(history_length=5, iterators=2), "thorough": dict(history_length=6, iterators=2)}
 LIMITS = {"quick": dict(max_paths=400000, max_wall=500), "thorough": dict(max_paths=5000000, max_wall=3300)}
 FIDELITY = {"quick": "first", "thorough": "first"}
 WALL_BUDGET = {"quick": 560, "thorough": 3500}
@@ -215,7 +215,7 @@ FIRST_OPS = ["ENTER_Q", "ENTER_R", "ENTER_WQ", "ENTER_RQ", "GEN_NEW0", "THE_MANY
 
 
 def shapes(tier, seed):
-    H = 5 if tier == "quick" else 7
+    H = 5 if tier == "quick" else 6
     out = []
     # partition the history space by its first two ops so that 16 workers share it
     for a in FIRST_OPS:
